@@ -746,8 +746,8 @@ func genC08Sweep(r *rng, st *c08Stats, budget int) {
 
 func genC08(r *rng, n int) {
 	st := &c08Stats{}
-	// the systematic sweep takes at most a third of the budget (all of it fits from n = 1500 on)
-	genC08Sweep(r.fork(), st, n/3)
+	// the systematic sweep (about 830 cases) takes at most half of the budget
+	genC08Sweep(r.fork(), st, n/2)
 	optsPool := []pgOpts{{MaxMsgs: 4, MaxFields: 8, MaxDepth: 3}, {MaxMsgs: 3, MaxFields: 6, MaxDepth: 4}, {MaxMsgs: 5, MaxFields: 10, MaxDepth: 2}, {MaxMsgs: 2, MaxFields: 5, MaxDepth: 5}}
 	for st.cases < n {
 		s := genProtoSchema(r.fork(), optsPool[r.intn(len(optsPool))])
